@@ -128,7 +128,7 @@ def cases(rng, tier):
     for il in interleavings([4, 6, 1]):
         sched = pre + [x if x != 2 else -1 for x in il]
         sched = [y for x in sched for y in ([2] * 4 if x == -1 else [x])]
-        if quick and k % 3:
+        if quick and k % 12:
             k += 1
             continue
         yield case([P(["attempt", "unlock"]), P(["peek", "forcebreak"]), P(["attempt", "confirm"]), P(["attempt"])],
@@ -140,7 +140,7 @@ def cases(rng, tier):
                    [0] * 4 + [1] * 4 + il + [1] * 6 + [2] * 6 + [0] * 3, steal=True, transport=tr[k % 2])
         k += 1
     # random
-    nrand = 450 if quick else 12000
+    nrand = 250 if quick else 6000
     wids = [OURS, OURS, OURS, DEADW, {"host": "localhost", "user": "ours", "pid": "dead"},
             {"host": "ours", "user": "other", "pid": "dead"}, {"host": "other", "user": "ours", "pid": "dead"},
             {"host": "ours", "user": "ours", "pid": None}]
@@ -205,7 +205,7 @@ def oracle(inp, obs):
     if obs["steal_bad"]:
         return obs["steal_bad"]
     if obs["flags"][1]:
-        return RACE_MSG + " (LockBreakMismatch raised after the rename; the later holder's lock is left in broken.*.tmp)"
+        return RACE_MSG + " (the rename moved a later holder's lock into broken.*.tmp; LockBreakMismatch is raised only afterwards and nothing is put back)"
     return None
 
 
